@@ -674,6 +674,10 @@ SPECS += [
     ("C01", "header-expression-in-own-scope", "rope/base/evaluate.py",
      remove_stmt_where("ScopeNameFinder.get_primary_and_pyname_at", stmt_is("if self._is_in_header_expression(holding_scope, offset)")), ["R01.16"]),
 ]
+SPECS += [
+    ("C06", "remover-key-is-a-pair", "rope/refactor/change_signature.py",
+     replace_expr_where("ArgumentRemover.change_argument_mapping", _is("definition_info.args_with_defaults[self.index][0]"), _expr("definition_info.args_with_defaults[0]")), ["R06.13"]),
+]
 SPECS = [s for s in SPECS if s[3] is not None]  # (entries without an AST edit are covered by their kept seed)
 
 SPECS = [s for s in SPECS if s[1] != "tab-to-four-spaces"]
